@@ -9,11 +9,6 @@ def pairs (j : Json) (k : String) : Except String (List (Str × Str)) := do
     | [a, b] => pure (Str.ofString (← a.getStr?), Str.ofString (← b.getStr?))
     | _ => throw s!"{k}: expected [name, version]"
 
-def lookup (l : List (Str × Str)) (k : Str) : Option Str :=
-  match l with
-  | [] => none
-  | (k', v) :: rest => if k' == k then some v else lookup rest k
-
 def depsOf (j : Json) : Except String (List ((Str × Str) × Option (List Dep))) := do
   (← jarr j "deps").mapM fun e => do
     match (← e.getArr?).toList with
@@ -28,12 +23,6 @@ def depsOf (j : Json) : Except String (List ((Str × Str) × Option (List Dep)))
           | _ => throw "deps: expected [name, version, optional]"
         pure (key, some l)
     | _ => throw "deps: expected [name, version, null | list]"
-
-def depsLookup (l : List ((Str × Str) × Option (List Dep))) (n v : Str) : DepsAnswer :=
-  match l with
-  | [] => .unknown
-  | ((n', v'), r) :: rest =>
-    if n' == n && v' == v then (match r with | none => .raised | some d => .ok d) else depsLookup rest n v
 
 /-- a line as Python's file iteration yields it: no newline except possibly as last character -/
 def wellFormedLine (l : Str) : Bool := !(l.dropLast.contains 10)
@@ -72,12 +61,24 @@ def handle : Handler := fun j => do
       else match searchRex (stripComment l) with
         | some m => Json.mkObj [("optional", m.optional), ("args", ofStr m.args), ("len", Json.num m.len)]
         | none => Json.str "other").toArray)])
+  | "re" =>
+    -- the hand-translated regular expressions and string helpers, one answer per line, for the differential test against `re`
+    pure (Json.mkObj [("res", Json.arr (lines.map fun l =>
+      Json.mkObj [("blank", isBlankOrComment l), ("nocomment", ofStr (stripComment l)),
+        ("rex", match searchRex l with
+          | some m => Json.mkObj [("optional", m.optional), ("args", ofStr m.args), ("len", Json.num m.len)]
+          | none => Json.null),
+        ("preExact", preExactRe l), ("openBrace", endsWithOpenBrace l), ("closeBrace", isCloseBrace l),
+        ("split", ofStrs (splitWs l)), ("strip", ofStr (strip l)), ("relop", hasRelop l),
+        ("badrelop", badRelop l), ("first", ofStr (firstField l)), ("bracket", ofStrs (splitBracket l)),
+        ("external", contains sExternal l)]).toArray)])
   | "expand" =>
     let pins ← pairs j "pins"
     let spv ← pairs j "spv"
     let sv ← pairs j "sv"
     let deps ← depsOf j
-    let A : Answers := { pin := lookup pins, spv := lookup spv, sv := lookup sv, deps := depsLookup deps }
+    let D : AnswerData := { pins := pins, spv := spv, sv := sv, deps := deps }
+    let A : Answers := D.toAnswers
     let o : Opts := { force := ← jbool j "force", expandVersions := ← jbool j "expandVersions",
                       addExactBlock := ← jbool j "addExactBlock", recurse := ← jbool j "recurse",
                       toplevel := ← jstrOpt j "toplevel" }
@@ -86,7 +87,10 @@ def handle : Handler := fun j => do
     | .error e => pure (Json.mkObj [("out", "error"), ("err", errName e)])
     | .ok items =>
       pure (Json.mkObj [("out", "ok"), ("lines", ofStrs (items.map renderItem)),
-                        ("items", Json.arr (items.map itemJson).toArray)])
+                        ("items", Json.arr (items.map itemJson).toArray),
+                        -- the hypotheses of C17_exact_reproduces_partial evaluated on these answers
+                        ("hyps", Json.mkObj [("depsSound", D.depsSound), ("pinsAgree", D.pinsAgree),
+                                             ("covered", D.covered o lines), ("noExactLine", noExactLine A o lines)])])
   | _ => throw s!"unknown op {op}"
 
 end EupsModel.Drv.C17
